@@ -154,7 +154,7 @@ def primsQ (j : Nat) : Prims where
   newRefval e n := liftQ j (decNewRefvalC e n)
   constant dd c := liftQ j (decConstant dd c)
   factorValue t := if Mixed j t then decFactorC (unmix t) else .error .other
-  lastValues n t := decLastValues n (unmix t)
+  lastValues n t := decLastValuesC n (unmix t)
 
 theorem unmix_mix (j : Nat) (s : St) : unmix (mix j s) = s := rfl
 
